@@ -13,9 +13,9 @@ from vlib.observe import Uids, snapshot
 ID = "C05"
 LEVEL = "exploration"
 TECHNIQUE = 'property-based round trip + metamorphic relation (options must not change the loaded tree)'
-LEVEL_TEXT = 'exploration: generated trees x 9 profiles x 3-6 storage configurations each; round trip equality, second generation, and option-independence of the loaded observation'
+LEVEL_TEXT = 'exploration: generated trees x 12 profiles x 3-6 storage configurations each; round trip equality, second generation, and option-independence of the loaded observation'
 RULE = (
-    "case = (profile in {plain str, objects + callback mappers, DictWrapper + its mappers, derived class with class-"
+    "case = (profile in {plain str, objects + callback mappers, DictWrapper + its mappers (plain and typed tree), derived class with class-"
     "level maps/mappers, TypedTree str / objects / derived, FileSystemTree}, tree spec with clones at any relative "
     "position / explicit ids / kinds / unicode, 3-6 storage configurations: key_map in {default, off, custom injective "
     "dict}, value_map in {default, off, custom dict listing all values}, compression in {False, True, STORED, DEFLATED, "
@@ -45,6 +45,15 @@ def run(case, rec):
         rec.cls("clone-below-sibling-of-first-occurrence")
     if prof.typed and _differing_kind_clone(case["spec"]):
         rec.cls("clone-of-differing-kind")
+    if prof.name == "typed_dictwrap" and rec.known("D31"):
+        # defect model of known finding D31: DictWrapper.serialize_mapper replaces the entry the writer prepared,
+        # so every kind is lost (the loaded nodes get the default kind); everything else must still hold
+        def dekind(v):
+            return [[x[0], x[1], "child", dekind(x[3])] for x in v]
+
+        if dekind(src_view["tree"]) != src_view["tree"]:
+            rec.excl("D31:kinds-lost-by-DictWrapper.serialize_mapper")
+            src_view = dict(src_view, tree=dekind(src_view["tree"]))
     first = None
     with tempfile.TemporaryDirectory(prefix="verif_c05_") as tmp:
         for i, cfg in enumerate(case["configs"]):
@@ -153,7 +162,7 @@ def _differing_kind_clone(spec):
 
 @st.composite
 def hyp_cases(draw, tier):
-    profile = draw(st.sampled_from(serial.PROFILES))
+    profile = draw(st.sampled_from(serial.C05_PROFILES))
     spec = draw(serial.tree_spec(profile))
     if draw(st.sampled_from([0, 0, 1])):
         # directed: make a clone below a sibling of its first occurrence
